@@ -2,6 +2,7 @@ import copy as _copy
 import operator
 from collections.abc import Iterable
 from functools import reduce
+from numbers import Integral
 from typing import Union
 
 import numpy as np
@@ -176,6 +177,23 @@ class GCXS(SparseArray, NDArrayOperatorsMixin):
 
         if self.data.ndim != 1:
             raise ValueError("data must be a scalar or 1-dimensional.")
+
+        if not all(isinstance(sh, Integral) and int(sh) >= 0 for sh in shape):
+            raise ValueError("shape must be an non-negative integer or a tuple of non-negative integers.")
+
+        # constant-time consistency checks of the three arrays (their contents are trusted)
+        if len(shape) >= 1 and len(self.data) != len(self.indices):
+            raise ValueError(
+                f"data and indices must have the same length, but len(data)={len(self.data)} and len(indices)={len(self.indices)}"
+            )
+        if len(shape) >= 2:
+            n_compressed = reduce(operator.mul, (int(shape[a]) for a in compressed_axes), 1)
+            if len(self.indptr) != n_compressed + 1:
+                raise ValueError(
+                    f"indptr must have one entry per compressed row plus one ({n_compressed + 1}), but len(indptr)={len(self.indptr)}"
+                )
+            if self.indptr[0] != 0 or self.indptr[-1] != len(self.indices):
+                raise ValueError("indptr must start at 0 and end at len(indices)")
 
         self.shape = shape
 
